@@ -10,19 +10,30 @@
 EXTENDS Integers, Sequences, FiniteSets, TLC, Emit
 
 CONSTANTS Dim, MaxTok, MaxStack, Rich,    \* Rich = FALSE: core alphabet (exhaustive runs); TRUE: full alphabet
-          Poly                              \* TRUE: polynomial fragment only (C01): no builtin functions, no division,
+          Poly,                             \* TRUE: polynomial fragment only (C01): no builtin functions, no division,
                                             \* degree bookkeeping <<du, dv, df>> (trial, test, coefficient fields)
+          NcU, NcV                          \* number of components of the trial / test functions (1 = scalar; 2 = vector-
+                                            \* valued: the leaves are then the vector, its components, divergence and
+                                            \* Jacobian instead of the scalar function and its derivatives)
 
 VARIABLES stack, prog, hasv, hasu, done, dg
 vars == <<stack, prog, hasv, hasu, done, dg>>
 
 \* leaves: token |-> type
-LeafS == {"u", "v", "ux", "vy", "c", "two"} \cup
-         (IF Rich THEN {"uy", "vx", "uxp", "vyp", "uxx", "uxy", "half", "three", "hpar", "hx"} \cup (IF Poly THEN {} ELSE {"gw"})
-          ELSE {})
+USc == NcU = 1   VSc == NcV = 1
+UTokS == IF USc THEN {"u", "ux"} \cup (IF Rich THEN {"uy", "uxp", "uxx", "uxy"} ELSE {}) ELSE {"u0", "u1", "divu"}
+VTokS == IF VSc THEN {"v", "vy"} \cup (IF Rich THEN {"vx", "vyp"} ELSE {}) ELSE {"w0", "w1", "divv"}
+UTokV == IF USc THEN {"gu"} \cup (IF Rich THEN {"gup"} ELSE {}) ELSE {"uvec"}
+VTokV == IF VSc THEN {"gv"} ELSE {"vvec"}
+UTokM == IF USc THEN (IF Rich THEN {"Hu"} ELSE {}) ELSE {"Gu"}
+VTokM == IF VSc THEN (IF Rich THEN {"Hv"} ELSE {}) ELSE {"Gv"}
+UToks == {"u", "ux", "uy", "uxp", "uxx", "uxy", "gu", "gup", "Hu", "u0", "u1", "divu", "uvec", "Gu"}
+VToks == {"v", "vx", "vy", "vyp", "gv", "Hv", "w0", "w1", "divv", "vvec", "Gv"}
+LeafS == UTokS \cup VTokS \cup {"c", "two"} \cup
+         (IF Rich THEN {"half", "three", "hpar", "hx"} \cup (IF Poly THEN {} ELSE {"gw"}) ELSE {})
 LeafD == {"f"} \cup (IF Rich THEN {"f2", "cD", "twoD"} ELSE {})
-LeafV == {"gu", "gv"} \cup (IF Rich THEN {"g", "x", "gup", "gh"} ELSE {})
-LeafM == (IF Rich THEN {"Hu", "Hv", "A", "J", "Ainv", "Jinv"} \cup (IF Poly THEN {} ELSE {"Gg"}) ELSE {"A"})
+LeafV == UTokV \cup VTokV \cup (IF Rich THEN {"g", "x", "gh"} ELSE {})
+LeafM == UTokM \cup VTokM \cup (IF Rich THEN {"A", "J", "Ainv", "Jinv"} \cup (IF Poly THEN {} ELSE {"Gg"}) ELSE {"A"})
 
 UnSS == IF Poly THEN {"neg"} \cup (IF Rich THEN {"sq"} ELSE {})
         ELSE {"neg", "sin"} \cup (IF Rich THEN {"cos", "exp", "log", "sqrt", "abs", "tan", "sq", "cube"} ELSE {})
@@ -43,8 +54,8 @@ BinMMS == IF Rich THEN {"minner"} ELSE {}
 BinVVM == IF Rich THEN {"outer"} ELSE {}
 
 \* degree bookkeeping <<du, dv, df>>
-LeafDeg(t) == IF t \in {"u", "ux", "uy", "uxp", "uxx", "uxy", "gu", "gup", "Hu"} THEN <<1, 0, 0>>
-              ELSE IF t \in {"v", "vx", "vy", "vyp", "gv", "Hv"} THEN <<0, 1, 0>>
+LeafDeg(t) == IF t \in UToks THEN <<1, 0, 0>>
+              ELSE IF t \in VToks THEN <<0, 1, 0>>
               ELSE IF t \in {"hpar", "f", "f2", "g", "x"} THEN <<0, 0, 1>>
               ELSE <<0, 0, 0>>
 DMax(a, b) == [q \in 1..3 |-> IF a[q] > b[q] THEN a[q] ELSE b[q]]
@@ -65,8 +76,8 @@ Push(t, ty) ==
   /\ ~done /\ Len(prog) < MaxTok /\ Len(stack) < MaxStack
   /\ stack' = Append(stack, ty)
   /\ prog' = Append(prog, t)
-  /\ hasv' = (hasv \/ t \in {"v", "vx", "vy", "vyp", "gv", "Hv"})
-  /\ hasu' = (hasu \/ t \in {"u", "ux", "uy", "uxp", "uxx", "uxy", "gu", "gup", "Hu"})
+  /\ hasv' = (hasv \/ t \in VToks)
+  /\ hasu' = (hasu \/ t \in UToks)
   /\ dg' = Append(dg, LeafDeg(t))
   /\ UNCHANGED done
 
